@@ -50,6 +50,20 @@ def run(res, tier, lean, prop="C01", proof_breaks=(), build_log=""):
         meta.append((True, False, False, result))
         res.bump("histories")
         res.bump("reads_scripted")
+    if prop == "C07":
+        # the root spelled with a trailing separator, then removed: one DirDeletedEvent(root), the emitter stops
+        for recursive in (True, False):
+            result = pipe.run_history([], [("create", "W/a"), ("unlink", "W/a"), ("rmdir", "W")], recursive=recursive,
+                                      root_spelling=lambda uni: uni.root + "/")
+            lines.append(pipe.request(result["init"], result["applied"], recursive, False))
+            impl.append(result["line"])
+            meta.append((recursive, False, False, result))
+            res.bump("histories")
+            res.bump("root_with_trailing_separator")
+            if not result["emitter_stopped"]:
+                res.violation("native observer violates C07: the watched root (given with a trailing separator) was removed but its "
+                              f"emitter did not stop; delivered: {result['line']}",
+                              {"root": "W/", "recursive": recursive, "delivered": result["line"]}, signature="c07-root-trailing-sep")
     for init, ops in hists:
         for recursive in (True, False):
             full = r.random() < 0.25
@@ -146,17 +160,18 @@ def run(res, tier, lean, prop="C01", proof_breaks=(), build_log=""):
     burst_runs = []
     nb = 10 if thorough else 3
     plan = [None] * nb
-    if prop == "C07":
+    if prop in ("C07", "C02"):
         # a nested burst during which the directory about to be watched vanishes just before the k-th follow-up
-        # inotify_add_watch - every k of the burst's watch calls (quick: the first three)
-        plan += [("fault", k) for k in ((1, 2, 3, 4, 5) if thorough else (1, 2, 3))]
+        # inotify_add_watch - every k of the burst's watch calls (quick: the first four); whatever survives must be covered
+        plan += [("fault", k) for k in ((1, 2, 3, 4, 5, 6) if thorough else (1, 2, 3, 4))]
     for i, what in enumerate(plan):
         init_b, bursts = pipe.gen_bursts(r, r.randint(3, 6))
         if what is not None:
             init_b = [("mkdir", "W/d")]
-            bursts = [[("mkdir", "W/n"), ("mkdir", "W/n/dd"), ("create", "W/n/dd/b"), ("mkdir", "W/n/dd/d"), ("create", "W/n/a")],
+            bursts = [[("mkdir", "W/n"), ("mkdir", "W/n/a"), ("mkdir", "W/n/b"), ("mkdir", "W/n/d"), ("mkdir", "W/n/dd"),
+                       ("create", "W/n/dd/b"), ("mkdir", "W/n/dd/d"), ("create", "W/n/f")],
                       [("create", "W/d/a")]]
-        recursive = True if prop != "C02" else (i % 3 != 2)
+        recursive = True if (prop != "C02" or what is not None) else (i % 3 != 2)
         full = r.random() < 0.25
         small = r.random() < 0.4
         vanish = None
